@@ -33,6 +33,15 @@ CONN_LINE_RE = re.compile(r'^( => |    )([A-Z]+) \((.*)\): (open|closed), (\d+) 
 
 def generate(seed, tier, index):
     rng = random.Random('%d/gen' % seed)
+    if index % 8 == 7:
+        # connection-id sink with ONE fault on the output side: the k-th write raises (Ctrl-C inside gdb.write, EPIPE on
+        # stdout). The statement is silent about failing output, so only what cannot be right under any reading is judged:
+        # nothing announced or reported closed twice, unique names, open connections reachable, no other exception
+        sc = generate_sink(seed, rng)
+        sc['config']['kind'] = 'sink_fault'
+        sc['config']['fault_write'] = rng.randint(0, 12)
+        sc['config']['fault_type'] = rng.choice(['KeyboardInterrupt', 'BrokenPipeError'])
+        return sc
     if index % 4 == 3:
         return generate_sink(seed, rng)
     if tier == 'thorough' and index % 16 == 2:
@@ -162,9 +171,97 @@ def execute_exhaustive(sc):
     return total
 
 
+def execute_sink_fault(sc):
+    V = common.Viol()
+    cfg = sc['config']
+    t = rig.tool()
+    rig.reset_globals()
+    rec = rig.Recorder()
+    rig.install_logging(rec)
+    state = {'n': 0, 'fired': False}
+    fault_exc = KeyboardInterrupt if cfg['fault_type'] == 'KeyboardInterrupt' else BrokenPipeError
+
+    class FaultyStream(t['RecStream']):
+        def override_write(self, string):
+            k = state['n']
+            state['n'] += 1
+            if k == cfg['fault_write'] and not state['fired']:
+                state['fired'] = True
+                rec.add('fault-write', string)
+                raise fault_exc()
+            rec.add(self.kind, string)
+    out = t['Output'](False, True, FaultyStream(rec, 'out'), t['RecStream'](rec, 'err'))
+    t['protocol'].load_all(out)
+    cm = t['ConnectionManager']()
+    ctl = t['Controller'](out, cm, t['matcher'].always, t['matcher'].never)
+    now = 0.0
+    nextid = {}
+    import traceback
+    for op in sc['sink_ops']:
+        now += 0.001
+        try:
+            if op[0] == 'open':
+                ident = 'id%d' % op[1]
+                nextid[ident] = 2
+                cm.open_connection(now, ident, op[2])
+            elif op[0] == 'close':
+                cm.close_connection(now, 'id%d' % op[1])
+            elif op[0] == 'close_unknown':
+                cm.close_connection(now, 'never-opened')
+            elif op[0] == 'msg':
+                ident = 'id%d' % op[1]
+                if ident not in cm.open_connections and not any(True for _ in ()):
+                    # (the harness sends only to identifiers it has opened and not closed since; after a fault during open
+                    # the identifier may legitimately be unknown to the tool, which its assertion reports)
+                    pass
+                if ident in nextid and ident_is_open(cm, ident):
+                    n = nextid[ident]
+                    nextid[ident] += 1
+                    line = ('[%10.3f]  -> wl_display@1.get_registry(new id wl_registry@2)' % (now * 1000) if n == 2 else
+                            '[%10.3f]  -> wl_display@1.sync(new id wl_callback@%d)' % (now * 1000, n))
+                    _, m = t['parse'].message(line)
+                    before = {id(c): len(c.messages()) for c in cm.connections()}
+                    cm.message(ident, m)
+                    grown = [c for c in cm.connections() if len(c.messages()) != before.get(id(c), 0)]
+                    if len(grown) != 1 or not grown[0].is_open():
+                        V.add('C04/routing', 'after-fault' if state['fired'] else 'sink', 'a message for %s was delivered to %r' % (
+                            ident, [(c.name(), c.is_open()) for c in grown]))
+        except fault_exc:
+            V.bump('fault_output_write_raised_' + cfg['fault_type'])
+        except Exception as e:  # noqa
+            V.add('C04/routing', 'exception:' + type(e).__name__, 'after an output-write fault at write %d: %s' % (
+                cfg['fault_write'], traceback.format_exc()[-1200:]))
+            break
+    items = L.out_items(rec)
+    news = [o.notice[2] for o in items if o.kind == 'notice' and o.notice[0] == 'New']
+    closed = [o.notice[2] for o in items if o.kind == 'notice' and o.notice[0] == 'Closed']
+    if len(set(news)) != len(news):
+        V.add('C04/open-notice', 'twice', 'a connection was announced twice: %r' % news)
+    if len(set(closed)) != len(closed):
+        V.add('C04/close-notice', 'twice', 'a connection was reported closed twice: %r (output-write fault at write %d: %s)' % (
+            closed, cfg['fault_write'], 'fired' if state['fired'] else 'not reached'))
+    names = [c.name() for c in cm.connections()]
+    if len(set(names)) != len(names):
+        V.add('C04/name-order', 'duplicate', 'connection names %r' % names)
+    for c in cm.connections():
+        if c.name() in closed and c.is_open():
+            V.add('C04/close-notice', 'open-but-reported-closed', 'connection %s was reported closed but is open' % c.name())
+    key = ''.join(o[0][0] + str(o[1] if len(o) > 1 else '') for o in sc['sink_ops']) + '/f%d' % cfg['fault_write']
+    return {'violations': V.list, 'counters': V.counters, 'nt_keys': [key[:200]] if state['fired'] else [], 'inter_key': key,
+            'states': [], 'digest': rec.digest(), 'canon': rec.digest(canonical=True), 'sim_us': int(now * 1e6), 'evals': 1,
+            'sample': {'config': cfg, 'sink_ops': sc['sink_ops'][:12]}}
+
+
+def ident_is_open(cm, ident):
+    c = cm.open_connections.get(ident) if hasattr(cm, 'open_connections') else None
+    return c is not None
+
+
 def execute(sc):
     if sc['config']['kind'] == 'sink':
         return execute_sink(sc)
+    if sc['config']['kind'] == 'sink_fault':
+        return execute_sink_fault(sc)
     if sc['config']['kind'] == 'exhaustive':
         return execute_exhaustive(sc)
     V = common.Viol()
